@@ -29,7 +29,7 @@ type sectorCtx struct {
 func runSector(b *harness.B, share, shares int, light bool) {
 	nSec := b.Pick(10, 100)
 	if light {
-		nSec = 2
+		nSec = b.Pick(2, 16)
 	}
 	g := newGuardRegion(sectorSize)
 	defer g.free()
